@@ -145,6 +145,14 @@ theorem C03_logarithmic_search (cmp : α → α → Ordering) (m : Tree α β) (
       cases cmp nk k <;> simp <;> omega
   exact Nat.le_trans (this m.root) (C03_height_bound cmp m hv).1
 
+/-- **The model's `Tree_Rem_Fix` loop is the C loop**: the only place where `remFix` departs from the text of the C
+    `while (true)` is the round after the red-sibling rotation, where it passes no continuation for the "all black"
+    case. That case cannot be taken there — the parent has just been painted red — whatever the continuation. -/
+theorem C03_remFix_dead_branch (f : Frame α β) (rest : Path α β) (up up' : Option (Path α β))
+    (h : color f.sib = .R) :
+    remFixBody (remCase2 f rest).1 (remCase2 f rest).2 up = remFixBody (remCase2 f rest).1 (remCase2 f rest).2 up' :=
+  remFixBody_red_irrelevant _ _ up up' (remCase2_red f rest h)
+
 /-- **The `ok=` flag printed by the driver on every state is `Valid`** (so the correspondence run also checks the
     invariant of the theorems on every state the implementation reaches). -/
 theorem C03_executable_check (cmp : α → α → Ordering) [TransCmp cmp] (m : Tree α β) :
